@@ -784,7 +784,8 @@ def check_resolution(program, rep):
     g = program.func('desper.model.world', 'resource_dict_transformer')
     n = 0
     bad = None
-    for t in ast.walk(g.node):
+    # (the climb may live in a helper of the module)
+    for t in ast.walk(g.module.tree):
         if not isinstance(t, (ast.While, ast.If, ast.IfExp)):
             continue
         leaves = []
